@@ -304,11 +304,11 @@ def extract(tree):
                  "elseif(s->flags&(PFLAG_STRING|PFLAG_LONGSTRING)){", "janet_panic(\"cannotinsertvalueintoparser\");"):
         if frag not in body:
             raise ExtractError("cfun_parse_insert: shape changed (%s)" % frag)
-    mi = re.search(r"size_tnewcount=p->bufcount\+slen;if\(p->bufcap<newcount\)\{size_tnewcap=(\d+)\*newcount;p->buf=janet_realloc\(p->buf,newcap\);"
-                   r"if\(p->buf==NULL\)\{JANET_OUT_OF_MEMORY;\}p->bufcap=newcap;\}safe_memcpy\(p->buf\+p->bufcount,str,slen\);p->bufcount=newcount;", body)
+    mi = re.search(r"size_t(?P<n>\w+)=p->bufcount\+(?P<l>\w+);if\(p->bufcap<(?P=n)\)\{size_t(?P<c>\w+)=(?P<f>\d+)\*(?P=n);p->buf=janet_realloc\(p->buf,(?P=c)\);"
+                   r"if\(p->buf==NULL\)\{JANET_OUT_OF_MEMORY;\}p->bufcap=(?P=c);\}safe_memcpy\(p->buf\+p->bufcount,\w+,(?P=l)\);p->bufcount=(?P=n);", body)
     if not mi:
         raise ExtractError("cfun_parse_insert: string branch (buffer growth) not recognised")
-    c["insertGrowFactor"] = int(mi.group(1))
+    c["insertGrowFactor"] = int(mi.group("f"))
     fr = re.search(r"struct\s+JanetParseState\s*\{([^}]*)\}", src)
     if not fr:
         raise ExtractError("struct JanetParseState not found")
